@@ -2,8 +2,12 @@ package mgr
 
 import (
 	"bytes"
+	"encoding/binary"
 	"fmt"
+	"strings"
 	"sync"
+
+	"golang.org/x/crypto/nacl/secretbox"
 
 	"verif/internal/vdb"
 )
@@ -22,6 +26,57 @@ type Scanner struct {
 	Puts     int
 	Bytes    int64
 	PublicOn bool // public material must not appear either (no transaction recorded yet)
+	KnownKey int  // ciphertext candidates tried under a key anybody knows
+	O2       int  // script rows whose secret script opens under the all-zero key (observation O-2)
+}
+
+// knownKeyOpen: a value "encrypted" under a key that anybody knows (the
+// all-zero key a wiped or never-initialised key buffer amounts to) is not
+// encrypted.  Candidates: the whole value and every length-prefixed field of it
+// (waddrmgr rows serialise their fields as uint32-LE length || bytes), read as
+// nonce(24) || secretbox.
+//
+// One class is recorded as an observation instead of a violation: the script
+// field of script-address rows (row types 2, 3, 4 in a scope's "addr" bucket).
+// The unchanged tree never decrypts the script crypto key on Unlock, so every
+// imported secret script is sealed under the all-zero key (DESIGN O-2).  The
+// property statement speaks of secrets "in raw or serialized text form", which
+// this is not; everything sealed under the PRIVATE crypto key (address keys,
+// imported keys, account / coin-type / master keys) is judged.
+func (s *Scanner) knownKeyOpen(v []byte, where string, scriptRow bool) *Diff {
+	var zero [32]byte
+	try := func(ct []byte, what string) *Diff {
+		if len(ct) < 24+secretbox.Overhead+1 {
+			return nil
+		}
+		s.mu.Lock()
+		s.KnownKey++
+		s.mu.Unlock()
+		var nonce [24]byte
+		copy(nonce[:], ct[:24])
+		if pt, ok := secretbox.Open(nil, ct[24:], &nonce, &zero); ok {
+			if scriptRow {
+				s.mu.Lock()
+				s.O2++
+				s.mu.Unlock()
+				return nil
+			}
+			return df("c04:ciphertext-under-all-zero-key", "%s of the %s opens under the ALL-ZERO key without any passphrase (%d plaintext bytes): it is not encrypted", what, where, len(pt))
+		}
+		return nil
+	}
+	if d := try(v, "the whole value"); d != nil {
+		return d
+	}
+	for p := 0; p+4 <= len(v); p++ {
+		l := int(binary.LittleEndian.Uint32(v[p:]))
+		if l >= 24+secretbox.Overhead+1 && l <= len(v)-p-4 {
+			if d := try(v[p+4:p+4+l], fmt.Sprintf("the %d-byte field at offset %d", l, p+4)); d != nil {
+				return d
+			}
+		}
+	}
+	return nil
 }
 
 type pat struct {
@@ -107,6 +162,10 @@ func (s *Scanner) Trace(onHit func(*Diff)) func(vdb.WriteEvent) {
 			onHit(d)
 		}
 		if d := s.Scan(e.Key, fmt.Sprintf("key written by %s into bucket %q", e.Op, e.Path)); d != nil {
+			onHit(d)
+		}
+		scriptRow := strings.HasSuffix(e.Path, "/addr") && len(e.Value) > 18 && e.Value[0] >= 2 && e.Value[0] <= 4
+		if d := s.knownKeyOpen(e.Value, fmt.Sprintf("value written by %s into bucket %q", e.Op, e.Path), scriptRow); d != nil {
 			onHit(d)
 		}
 	}
